@@ -249,6 +249,15 @@ def _converged(src, cl, plan, senders, sig=None):
 
 
 @rigged
+def disturbed_distribution(src, n=3):
+    """H01h: the convergence claim over the schedules where the Master (or another instance) crashes / restarts while
+    a real DISTRIBUTION is pending"""
+    from harness import cluster_common as CC
+    cl, cfg, plan, senders, traces, sig = CC.distribution_schedule(src, n, 14, ('LIST+TIMEOUT',), (False,))
+    _converged(src, cl, plan, senders, sig=sig)
+
+
+@rigged
 def split_brain(src, n=2, max_len=8, configs=('LIST+TIMEOUT', 'CORE'), fences=(False, True)):
     """H01g: a partition that lasts a solver-chosen number of rounds (shorter or longer than failure detection, so each
     side may or may not have kept / elected its own Master) cuts one instance from the others, then heals"""
@@ -268,6 +277,8 @@ HARNESSES = [
             doc='cluster convergence on one running Master after a solver-chosen fault'),
     Harness('H01g', split_brain, quick={'n': 2}, thorough={'n': 3}, reach=('quiescent', 'reunited'), timeout=(150, 1500),
             doc='split brain: partition of 1..8 rounds (each side keeps or elects a Master) then heal'),
+    Harness('H01h', disturbed_distribution, quick={'n': 3}, thorough={'n': 3}, reach=('quiescent',), timeout=(120, 300),
+            doc='crashes / restarts of the Master or others during a real pending DISTRIBUTION'),
     Harness('H01f-delays', convergence, quick=None, thorough={'n': 2, 'faults': 1, 'delays': 1},
             reach=('quiescent',), timeout=(0, 1800), doc='same with one held task'),
     Harness('H01a', rule, quick={'n': 3}, thorough={'n': 4}, reach=('selected', 'single-recognised'),
